@@ -21,6 +21,7 @@ import GraphiqModel.Proofs.CompareRepairNorm
 import GraphiqModel.Proofs.CompareRepairStab
 import GraphiqModel.Proofs.CompareRepairRenEq
 import GraphiqModel.Proofs.CompareRepairDirect
+import GraphiqModel.Proofs.CompareRepairEquiv
 namespace Graphiq.C15
 open Graphiq Graphiq.Export Graphiq.Compare
 
@@ -259,6 +260,23 @@ theorem repaired_matcher_rejects_the_witnesses :
     circuitIsIsomorphic2 d22A d22B = .ok false ∧ circuitIsIsomorphic2 tailA tailB = .ok false ∧
     removeRedundant2 [witA, witB] = [witA, witB] := by
   decide +kernel
+
+/-- **the repaired isomorphism relation is reflexive and symmetric**: the identity map passes the check on every DAG with
+    distinct node names whose nodes all carry an operation, and the inverse of a map passing the check from `g1` to `g2`
+    passes it from `g2` to `g1` — so, `networkx.is_isomorphic` deciding existence, the comparison gives the same answer
+    for (a, b) and (b, a) -/
+theorem iso2_reflexive_and_symmetric :
+    (∀ g : MG, (g.nodes.map (·.1)).Nodup → (∀ n ∈ g.nodes.map (·.1), ∃ o, g.opOf n = some o) →
+      isoCheck2 g g (idMapOf g) = true) ∧
+    (∀ (g1 g2 : MG) (f : List (Nd × Nd)), isoCheck2 g1 g2 f = true → ∃ f', isoCheck2 g2 g1 f' = true) :=
+  ⟨isoCheck2_refl, fun g1 g2 f h => ⟨_, isoCheck2_symm g1 g2 f h⟩⟩
+
+/-- **a well-formed circuit is isomorphic to its copy**, as `compare` calls the repaired comparison and as the filters call
+    it: on the DAG `CircuitDAG.add` builds, and on its normalisation, the identity map passes the check -/
+theorem circuit_is_isomorphic_to_its_copy (c : Circuit) (h : WellFormed c) :
+    ∃ g, MG.build c = .ok g ∧ isoCheck2 g.addControlTarget2 g.addControlTarget2 (idMapOf g.addControlTarget2) = true ∧
+      isoCheck2 g.normalise.addControlTarget2 g.normalise.addControlTarget2 (idMapOf g.normalise.addControlTarget2) = true :=
+  build_iso_refl c (wellFormed_opOK c h)
 
 /-- a positive answer of the repaired model always exhibits a map that passes the full check (the search is never trusted) -/
 theorem iso2_answer_is_checked (g1 g2 : MG) (h : isoGraphs2 g1 g2 = true) :
